@@ -190,7 +190,7 @@ def noisy_cases(draw, max_width=4, max_gates=10, with_init=True, exclude=()):
             c["nq"] = max(c["nq"], 1 + max(q for g in c["gates"] for q in g["t"] + (g["c"] or [])))
     c["noise"] = draw(noise_for(c["gates"], exclude))
     n = S.circuit_width(c)
-    c["init"] = draw(S.statevectors(n)) if (with_init and draw(st.integers(0, 3)) == 2) else None
+    c["init"] = draw(S.statevectors(n, allow_none=False)) if (with_init and draw(st.integers(0, 2)) == 1) else None
     return c
 
 
